@@ -193,3 +193,9 @@ C03.assumptions = C03.assumptions + [
     "json.load is modelled by JsonParse.parse (C03_bytes_parsed needs no parser hypothesis); the model is tied to CPython 3.12's "
     "json.loads by differential runs on printer output, other layouts, mutated texts and the library's own texts (json_diff); "
     "interpreter recursion limit and int/str digit limit beyond the configured value are outside"]
+MANIFEST = dict(MANIFEST,
+                text=MANIFEST["text"] + " C03_bytes_parsed: the same at text level through the modelled json.loads (JsonParse.parseWith), with no "
+                     "assumption on the parser left (side conditions: float tokens are float literals, integers within int()'s digit limit).",
+                note="The JSON printer (JsonText.dumps) and the JSON parser (JsonParse.parse, Model/JsonParse.lean) are both modelled; "
+                     "Proofs/JsonRoundTrip.lean proves that the parser inverts the printer on every JSON-representable document; the parser "
+                     "model is tied to CPython's json.loads by differential runs (harness/json_diff.py) on every check.")
